@@ -105,6 +105,12 @@ fn process_event<C: CondT>(
                 (Some(a), false) => format!("ok {}", show_gstates(a)),
                 _ => "ok".to_string(),
             };
+            if rb && !y2.inner.ignore.is_empty() {
+                cx.out.count("rebuilds leaving a non-empty ignore filter (strong-remove rules fired)");
+            }
+            if rb && !y2.inner.mutual_removes.is_empty() {
+                cx.out.count("rebuilds with mutual removes");
+            }
             (Some(y2), "ok".into(), ans, if rb { None } else { after })
         }
         Ok(Err(e)) => {
